@@ -132,3 +132,41 @@ func vfH_C03_upstream() {
 	vfrt.Assert(bytes.Equal(got, down), "upstream/bytes-behind-the-proxy-reply-reach-the-client")
 	vfrt.Assert(client.Closed >= 1 && upstream.Closed >= 1, "upstream/both-sockets-closed")
 }
+
+//vf:harness property=C03 nopanic reach=upgrade-tunnel steps=8000000
+func vfH_C03_upgrade() {
+	// 101 Switching Protocols: the response body is the upstream connection; bytes flow both ways untouched
+	cfg := HTTPProxyConfig{}
+	cfg.Name = "fw"
+	cfg.ProxyLocalhost = AllowProxyLocalhost
+	hp := vfNewHTTPProxy(cfg)
+	rt := hp.transport.(*vfRoundTripper)
+	max := 3
+	if vfrt.Thorough() {
+		max = 6
+	}
+	up := vfrt.Bytes("client-payload", vfrt.Choice("client-len", max+1))
+	down := vfrt.Bytes("target-payload", vfrt.Choice("target-len", max+1))
+	target := martian.NewVfConn(down)
+	rt.respond = func(req *http.Request, n int) (*http.Response, error) {
+		return &http.Response{StatusCode: 101, Status: "101 Switching Protocols", ProtoMajor: 1, ProtoMinor: 1,
+			Header: http.Header{"Connection": {"Upgrade"}, "Upgrade": {"websocket"}}, Body: target, Request: req}, nil
+	}
+	client := martian.NewVfConn(append([]byte("GET http://example.com/ws HTTP/1.1\r\nHost: example.com\r\nConnection: Upgrade\r\nUpgrade: websocket\r\n\r\n"), up...))
+	vfrt.Reach("upgrade-tunnel")
+	martian.VfServeConn(hp.proxy, client)
+
+	vfrt.Assert(rt.calls == 1 && rt.headers[0].Get("Upgrade") == "websocket", "upgrade/request-forwarded-as-upgrade")
+	vfrt.Assert(bytes.Equal(target.Out.Bytes(), up), "upgrade/client-bytes-reach-upstream-exactly-once-in-order")
+	br := bufio.NewReader(bytes.NewReader(client.Out.Bytes()))
+	res, err := http.ReadResponse(br, &http.Request{Method: "GET"})
+	vfrt.Assert(err == nil && res.StatusCode == 101 && res.Header.Get("Upgrade") == "websocket", "upgrade/101-relayed-with-upgrade-fields")
+	if err != nil {
+		return
+	}
+	got := make([]byte, br.Buffered())
+	br.Read(got)
+	vfrt.Assert(bytes.Equal(got, down), "upgrade/upstream-bytes-reach-client-exactly-once-in-order")
+	vfrt.Assert(target.WriteClosed == 1 && client.WriteClosed == 1, "upgrade/end-of-stream-propagated-both-ways")
+	vfrt.Assert(client.Closed >= 1, "upgrade/client-socket-closed-when-done")
+}
